@@ -659,12 +659,22 @@ func readUnion(tr *tokenReader) (Union, error) {
 			// This is a close curly-- we must advance past it or the union
 			// will read it and believe it is complete
 			branchClose := tr.Token()
-			if tr.Next() && tr.Token().kind == tokenKindCloseCurly && tr.Token().loc != branchClose.loc {
-				// the union's own close curly directly follows the branch
-				return union, nil
+			if tr.Next() {
+				switch next := tr.Token(); {
+				case next.kind == tokenKindCloseCurly && next.loc != branchClose.loc:
+					// the union's own close curly directly follows the branch
+					return union, nil
+				case next.kind == tokenKindNewline, next.kind == tokenKindLineComment:
+					// the branch's line is over (a trailing line comment includes its
+					// line end); comments on the following lines document the next branch
+				default:
+					if next.kind != tokenKindCloseCurly {
+						tr.UnNext()
+					}
+					skipEndOfLineComments(tr)
+					optNewline(tr)
+				}
 			}
-			skipEndOfLineComments(tr)
-			optNewline(tr)
 			if tk := tr.Token(); tk.kind == tokenKindCloseCurly && tk.loc == branchClose.loc {
 				// nothing followed the branch: its close curly must not be
 				// mistaken for the end of the union
